@@ -565,6 +565,10 @@ def member_source(t, attr="forecasters"):
     """Is ``t`` 'the estimator of one element of self.<attr>'?  Returns (loop id, slice or None) or None."""
     if not isinstance(t, tuple):
         return None
+    if t[0] == "item" and not (t[2] == ("const", 1) and isinstance(t[1], tuple) and t[1][:1] == ("elem",)):
+        ev_ = element_view(None, t)  # for i in range(len(seq)): seq[i]
+        if ev_ is not None and not ev_[1]:
+            t = ("elem", ev_[0], ev_[2])
     if t[0] == "elem":
         base, rev, sl = seq_shape(t[1])
         if base == ("item", ("unzip", ("attr0", attr)), ("const", 1)):
@@ -586,6 +590,37 @@ def member_fit_events(res):
         ms = member_source(src if src is not None else e.recv)
         if ms is not None:
             out.append((e, src is not None, ms[0], ms[1]))
+    return out
+
+
+def complementary(res, events):
+    """The events are the alternatives of one action: exactly one of them is executed on every normal path
+    (one unconditional site, or the two branches of one test), loops aside."""
+    ctxs = [[c for c in res.structural(e) if c[0] != "loop"] for e in events]
+    if len(events) == 1:
+        return not ctxs[0]
+    if len(events) == 2 and all(len(c) == 1 and c[0][0] == "if" for c in ctxs):
+        a, b = ctxs[0][0], ctxs[1][0]
+        return a[3] == b[3] and a[2] != b[2]
+    return False
+
+
+def phase_key(e):
+    """The helper call of the analysed method inside which the event happened (first inline marker), else the event itself."""
+    for c in e.ctx:
+        if c[0] == "inline":
+            return ("call", c[1])
+    return ("event", e.id)
+
+
+def fitted_sites(res, t):
+    """All member-fit events whose results may make up the list ``t`` (one per alternative of the value)."""
+    out = set()
+    for a in alts(t) if t is not None else ():
+        e = fitted_list_event(res, a)
+        if e is None:
+            return None
+        out.add(e)
     return out
 
 
@@ -624,27 +659,30 @@ def r2_fit(ctx, repo, cls):
     if not mf and not [e for e in res.calls("fit", kind=("call",)) if e.target.kind == "attr"]:
         ctx.violation("R2", C + ":all-members", "the members are never fitted", loc0)
         return
-    if len(mf) != 1:
-        ctx.undecided("R2", C + ":members", "expected one member fit site, found %d" % len(mf), loc0)
+    if len({phase_key(x[0]) for x in mf}) != 1 and len(mf) != 1:
+        ctx.undecided("R2", C + ":members", "expected one member fit phase, found %d sites in several places" % len(mf), loc0)
         return
-    e, cloned, L, msl = mf[0]
-    loc = loc_of(e)
-    ctx.check(cloned, "R2", C + ":member-clone", "each member is a clone of the constructor argument",
-              "members are fitted without `clone`: the caller's estimators are mutated and shared", loc)
-    b = e.bind(sig)
-    for p in sig:
-        if b is None:
-            ctx.undecided("R2", C + ":member-data:" + p, "cannot bind the member fit call", loc)
-        else:
-            forwarded(ctx, res, "R2", C + ":member-data:" + p, b.get(p), P(p), "members receive the caller's %s" % p,
-                      "members are not fitted with the caller's `%s`" % p, loc)
-    ctx.check(res.unconditional(e, allow_loops=(L,)) and loop_plain(res, L) and msl is None, "R2", C + ":all-members",
+    for e, cloned, L, msl in mf:
+        loc = loc_of(e)
+        ctx.check(cloned, "R2", C + ":member-clone", "each member is a clone of the constructor argument",
+                  "members are fitted without `clone`: the caller's estimators are mutated and shared", loc)
+        b = e.bind(sig)
+        for p in sig:
+            if b is None:
+                ctx.undecided("R2", C + ":member-data:" + p, "cannot bind the member fit call", loc)
+            else:
+                forwarded(ctx, res, "R2", C + ":member-data:" + p, b.get(p), P(p), "members receive the caller's %s" % p,
+                          "members are not fitted with the caller's `%s`%s" % (p, " on the path where %s" % ", ".join(
+                              "%s is %s" % (res.fmt(c), pol) for c, pol, o in res.facts(e) if o == "if") if len(mf) > 1 else ""), loc)
+    sites = [x[0] for x in mf]
+    loc = loc_of(sites[0])
+    ctx.check(complementary(res, sites) and all(loop_plain(res, L) and msl is None for _, _, L, msl in mf), "R2", C + ":all-members",
               "every member is fitted on every path", "some members are not fitted (conditional fit, filtered or sliced loop)", loc)
     stored = res.heap.get("forecasters_")
-    fe = fitted_list_event(res, stored) if stored is not None else None
-    if fe is e:
+    fs = fitted_sites(res, stored) if stored is not None else None
+    if fs is not None and fs == set(sites):
         ctx.ok("R2", C + ":store", "forecasters_ holds the fitted clones", loc)
-    elif stored is None or not mentions(res, stored, ("ret", e.id)) and not mentions(res, stored, e.recv):
+    elif stored is None or not any(mentions(res, stored, ("ret", e.id)) or mentions(res, stored, e.recv) for e in sites):
         ctx.violation("R2", C + ":store", "forecasters_ is %s, not the list of fitted clones"
                       % (res.fmt(stored) if stored is not None else "not assigned"), loc)
     else:
@@ -991,6 +1029,31 @@ def r3(ctx, repo):
             ctx.check(src is not None, "R3", C + ":clone", "the selected component is cloned", "the selected component is used without `clone`", loc)
             ctx.ok("R3", C + ":selected-by-name", "clones dict(forecasters)[selected_forecaster]", loc)
             continue
+        ie = res.ret_event(comp[1][2]) if (not ok_shape and isinstance(comp, tuple) and comp[0] == "item" and comp[2] == ("const", 1)
+                                           and isinstance(comp[1], tuple) and comp[1][0] == "item" and comp[1][1] == ("attr0", "forecasters")) else None
+        if ie is not None and ie.kind == "call" and ie.target.kind == "attr" and ie.name == "index" and ie.args[:1] == (sel,):
+            # forecasters[names.index(selected_forecaster)]: right iff `names` lists the component names in the order of forecasters
+            names = res.as_seq(ie.recv)
+            reordered = False
+            while isinstance(names, tuple) and names[:1] == ("pure",) and names[1] in ("sorted", "set", "frozenset") and len(names[2]) == 1:
+                reordered = True
+                names = res.as_seq(names[2][0])
+            base, rev, sl = seq_shape(names)
+            aligned = None
+            if isinstance(base, tuple) and base[0] == "comp" and sl is None:
+                Ln = res.loops[base[2]]
+                if seq_shape(Ln.iter) == (("attr0", "forecasters"), False, None) and base[1] == ("item", ("elem", Ln.iter, Ln.id), ("const", 0)) \
+                        and loop_plain(res, Ln.id):
+                    aligned = not rev and not reordered
+            elif base == ("item", ("unzip", ("attr0", "forecasters")), ("const", 0)) and sl is None:
+                aligned = not rev and not reordered
+            ctx.check(src is not None, "R3", C + ":clone", "the selected component is cloned", "the selected component is used without `clone`", loc)
+            ctx.check(aligned, "R3", C + ":selected-by-name", "clones forecasters[names.index(selected_forecaster)] with names in component order",
+                      "the position of `selected_forecaster` is looked up in a name list that is not in the order of `forecasters` (sorted / reversed): "
+                      "the component cloned is another one whenever the names are not already in that order" if aligned is False
+                      else "cannot relate the list the name is looked up in (%s) to `forecasters`" % res.fmt(ie.recv), loc,
+                      witness={"forecasters": "[('naive', f1), ('ets', f2)], selected_forecaster='naive' -> f2 is used"})
+            continue
         if not ok_shape:
             if isinstance(comp, tuple) and comp[0] == "item" and isinstance(comp[1], tuple) and comp[1][0] == "item" \
                     and seq_shape(comp[1][1])[0] == ("attr0", "forecasters") and is_const(comp[1][2]):
@@ -1036,11 +1099,18 @@ def r3(ctx, repo):
         else:
             ctx.violation("R3", C + ":selected-by-name", "the component chosen is one whose name differs from `selected_forecaster`", loc)
     chk = [e for e in res.calls("_check_selected_forecaster", kind=("inline", "call"))]
-    ctx.check(bool(chk) and all(res.dominates(chk[0], s) for s in stores), "R3", C + ":check-first",
-              "_check_selected_forecaster precedes the selection", "the selection is not preceded by _check_selected_forecaster on every path", loc0)
-    # --- _check_selected_forecaster rejects unknown names
-    res2 = analysed(ctx, Prov(repo).run_method(cls, "_check_selected_forecaster"))
-    fn2 = repo.lookup_method(cls, "_check_selected_forecaster")[1]
+    has_helper = repo.lookup_method(cls, "_check_selected_forecaster") is not None
+    own_raises = [r for r in res.of_kind("raise") if any(sel in _subterms(c) for c, _, _ in res.facts(r))]
+    if chk or has_helper:
+        ctx.check(bool(chk) and all(res.dominates(chk[0], s) for s in stores), "R3", C + ":check-first",
+                  "_check_selected_forecaster precedes the selection", "the selection is not preceded by _check_selected_forecaster on every path", loc0)
+    else:
+        ctx.check(bool(own_raises) and all(r.id < s.id for r in own_raises for s in stores), "R3", C + ":check-first",
+                  "the rejection of unknown names precedes the selection", "the selection is not preceded by a rejection of unknown names", loc0)
+    # --- unknown names are rejected (in _check_selected_forecaster, or in _set_forecaster itself when the check was merged into it)
+    chk_method = "_check_selected_forecaster" if has_helper else "_set_forecaster"
+    res2 = analysed(ctx, Prov(repo).run_method(cls, chk_method))
+    fn2 = repo.lookup_method(cls, chk_method)[1]
     key = "MultiplexForecaster._check_selected_forecaster:rejects-unknown"
     loc2 = ctx.loc(cls.module, fn2)
 
@@ -1054,7 +1124,7 @@ def r3(ctx, repo):
             return 0
         if isinstance(t, tuple) and t[:1] in (("set_of",), ("pure",)) and t[0] == "set_of":
             t = t[1]
-        if isinstance(t, tuple) and t[:2] == ("pure", "set") and len(t[2]) == 1:
+        while isinstance(t, tuple) and t[:1] == ("pure",) and t[1] in ("set", "sorted", "frozenset") and len(t[2]) == 1:
             t = res2.as_seq(t[2][0])
         base, rev, sl = seq_shape(t)
         if sl is not None:
@@ -1235,8 +1305,21 @@ def r4(ctx, repo):
     train = ("item", ("getattr", y, "iloc"), ("item", W, ("const", 0)))
     test = ("item", ("getattr", y, "iloc"), ("item", W, ("const", 1)))
     # --- member fits
-    mf = member_fit_events(res)
+    mf_all = member_fit_events(res)
     sig = fsig(repo, "fit")
+    phases = {}
+    for rec in mf_all:
+        phases.setdefault(phase_key(rec[0]), []).append(rec)
+    mf, sites_of = [], {}
+    for key_, recs in phases.items():
+        ys = {(r_[0].bind(sig) or {}).get("y") for r_ in recs}
+        if len(recs) > 1 and (len(ys) != 1 or not complementary(res, [r_[0] for r_ in recs])):
+            ctx.undecided("R4", C + ":members", "a member-fit phase has %d sites that are not alternatives of one action" % len(recs), loc_of(recs[0][0]))
+            return
+        rep = recs[0]
+        mf.append((rep[0], all(r_[1] for r_ in recs), rep[2], None if all(r_[3] is None for r_ in recs) else rep[3] or ("slice",)))
+        sites_of[rep[0].id] = [r_[0] for r_ in recs]
+    all_sites = [r_[0] for r_ in mf_all]
     if len(mf) == 1:
         b1 = mf[0][0].bind(sig)
         if b1 is not None and b1.get("y") == train:
@@ -1276,16 +1359,16 @@ def r4(ctx, repo):
     efull, cl_f, Lf, bf = e_full[0]
     ctx.ok("R4", C + ":members-train-window", "members fitted on y.iloc[train_window] of the single split", loc_of(et))
     for tag, (e, cl, L, b) in (("hold-out", e_train[0]), ("refit", e_full[0])):
-        ctx.check(cl and res.unconditional(e, allow_loops=(L,)) and loop_plain(res, L), "R4", C + ":members:%s:clones" % tag,
+        ctx.check(cl and complementary(res, sites_of[e.id]) and loop_plain(res, L), "R4", C + ":members:%s:clones" % tag,
                   "every member is fitted as a clone", "in the %s fit not every member is fitted as a clone" % tag, loc_of(e))
         mfh = b.get("fh")
         ctx.check(True if (mfh in fh_terms or mfh == P("fh")) else (False if mfh in (None, NONE) or is_const(mfh) else None),
                   "R4", C + ":members:%s:fh" % tag, "members are fitted for the forecaster's horizon",
                   "members are fitted with fh=%s" % res.fmt(mfh), loc_of(e))
     # --- member forecasts used as meta features
-    reg = [e for e in res.calls("fit", kind=("call",)) if e.target.kind == "attr" and e not in (et, efull)]
+    reg = [e for e in res.calls("fit", kind=("call",)) if e.target.kind == "attr" and e not in all_sites]
     reg = [e for e in reg if (is_clone_of(res, e.recv) or e.recv) in (("attr0", "final_regressor"),)]
-    if not reg and not [e for e in res.calls("fit", kind=("call",)) if e.target.kind == "attr" and e not in (et, efull)]:
+    if not reg and not [e for e in res.calls("fit", kind=("call",)) if e.target.kind == "attr" and e not in all_sites]:
         ctx.violation("R4", C + ":meta-regressor", "the meta-regressor is never fitted", loc0)
         return
     if len(reg) != 1:
@@ -1311,16 +1394,28 @@ def r4(ctx, repo):
     stack = res.ret_event(Xm)
     pe = None
     src_fit = None
+    stale_members = False
     if stack is not None and stack.target is not None and stack.target.kind == "ext" and stack.target.ext in ("numpy.column_stack",) and stack.args:
         base, rev, sl = seq_shape(res.as_seq(stack.args[0]))
         if isinstance(base, tuple) and base[0] == "comp" and sl is None:
             pe = res.ret_event(base[1])
-            if pe is not None and pe.name == "predict" and isinstance(pe.recv, tuple) and pe.recv[0] == "elem":
-                src_fit = fitted_list_event(res, pe.recv[1])
-                if not loop_plain(res, base[2]):
-                    src_fit = None
-    if pe is not None and pe.name == "predict" and isinstance(pe.recv, tuple) and pe.recv[0] == "elem" and src_fit is None \
-            and seq_shape(pe.recv[1])[0] == ("attr0", "forecasters_"):
+            if pe is not None and pe.name == "predict":
+                recvs = sorted(alts(pe.recv), key=repr)
+                if all(isinstance(a, tuple) and a[:1] == ("elem",) for a in recvs):
+                    srcs = set()
+                    for a in recvs:
+                        fs_ = fitted_sites(res, a[1])
+                        srcs = None if fs_ is None or srcs is None else srcs | fs_
+                    if srcs and loop_plain(res, base[2]):
+                        if srcs <= set(sites_of[et.id]):
+                            src_fit = et
+                        elif srcs <= set(sites_of[efull.id]):
+                            src_fit = efull
+                        else:
+                            src_fit = "mixed"
+                    elif all(seq_shape(a[1])[0] == ("attr0", "forecasters_") for a in recvs):
+                        stale_members = True
+    if stale_members:
         ctx.violation("R4", C + ":meta-features", "the member forecasts used as meta features are requested before the members are fitted on the "
                       "training window (they come from whatever forecasters_ held before this fit)", loc_of(pe))
         return
@@ -1339,10 +1434,11 @@ def r4(ctx, repo):
     ctx.check(None if bp is None else (none_valued(res, pe, fhp) or fhp in fh_terms), "R4", C + ":meta-features:horizon",
               "member forecasts are made for the horizon given at fit (the held-out window)",
               "member forecasts for the meta-regressor use fh=%s" % res.fmt(fhp), loc_of(pe))
-    order = et.id < pe.id < er.id < efull.id and res.unconditional(er) and res.unconditional(pe, allow_loops=res.loops_of(pe))
+    order = max(x.id for x in sites_of[et.id]) < pe.id < er.id < min(x.id for x in sites_of[efull.id]) and res.unconditional(er) \
+        and res.unconditional(pe, allow_loops=res.loops_of(pe))
     ctx.check(order, "R4", C + ":order", "hold-out fit < member forecasts < meta-regressor fit < full refit",
               "stacking steps are out of order (hold-out fit #%d, forecasts #%d, meta fit #%d, refit #%d)" % (et.id, pe.id, er.id, efull.id), loc0)
-    ctx.check(fitted_list_event(res, res.heap.get("forecasters_")) is efull, "R4", C + ":refit-full",
+    ctx.check(fitted_sites(res, res.heap.get("forecasters_")) == set(sites_of[efull.id]), "R4", C + ":refit-full",
               "after fit the members are those refitted on the full series",
               "after fit, forecasters_ are not the members refitted on the full y", loc_of(efull))
     # --- _predict: the same feature layout, from all fitted members, through the fitted meta-regressor
